@@ -41,6 +41,7 @@ impl Default for C12 {
             "deleverage_window_reset",
             "deleverage_limit_hit",
             "group_configure_judged",
+            "purge_judged",
             "edit_fee_state_judged",
             "group_roles_changed",
             "deleverage_withdraw_counted",
@@ -224,6 +225,29 @@ impl Monitor for C12 {
                                         format!("group {group_key}: withdrawn {} limit {limit}", q_str(&entry.1)), idx));
                                 }
                             }
+                        }
+                    }
+                }
+            }
+            // purge: only on a bank whose token-less wind-down is COMPLETE, only a deposit-side
+            // balance, and the bank total shrinks by exactly that balance's shares
+            if ix.tag == "purge_deleverage_balance" {
+                let acc_key = ix.accounts[1].pubkey;
+                let bk = ix.accounts[3].pubkey;
+                if let (Some(b0), Some(b1), Some(a0)) = (model::bank_of(a, &bk), model::bank_of(b, &bk), model::account_of(a, &acc_key)) {
+                    self.cov.probe("purge_judged");
+                    if b0.flags & TOKENLESS_REPAYMENTS_COMPLETE == 0 {
+                        out.push(viol("C12", "purged_before_wind_down_complete", ix.tag,
+                            format!("bank {bk}: flags {:#x} (token-less repayments complete not set)", b0.flags), idx));
+                    }
+                    if let Some(sl) = super::slot_of(&a0, &bk) {
+                        if model::q_w(sl.liability_shares) >= model::qi(1) {
+                            out.push(viol("C12", "purged_a_debt_balance", ix.tag, format!("account {acc_key} bank {bk}"), idx));
+                        }
+                        let d = model::q_w(b0.total_asset_shares) - model::q_w(b1.total_asset_shares);
+                        if d != model::q_w(sl.asset_shares) {
+                            out.push(viol("C12", "purge_removed_other_than_the_balances_shares", ix.tag,
+                                format!("bank {bk}: total fell by {} balance held {}", model::q_str(&d), model::q_str(&model::q_w(sl.asset_shares))), idx));
                         }
                     }
                 }
